@@ -23,7 +23,11 @@ if jobs > 1 and shard is None:
     for k in range(jobs):
         f = os.path.join(ROOT, "seeded", "MATRIX.%d.json" % k)
         merged.update(json.load(open(f))); os.remove(f)
-    json.dump(dict(sorted(merged.items())), open(os.path.join(ROOT, "seeded", "MATRIX.json"), "w"), indent=1)
+    mp = os.path.join(ROOT, "seeded", "MATRIX.json")
+    if args and os.path.exists(mp):
+        # a filtered run updates the entries it re-ran and keeps the others
+        old = json.load(open(mp)); old.update(merged); merged = old
+    json.dump(dict(sorted(merged.items())), open(mp, "w"), indent=1)
     sys.exit(0)
 flt = args[0] if args else ""
 scratch = os.environ.get("SEED_SCRATCH", "/tmp/seedrepo")
